@@ -12,6 +12,7 @@ import (
 	"strings"
 	"syscall"
 	"time"
+	"unsafe"
 )
 
 // L3: a ptrace scheduler that decides interleavings at machine-instruction granularity
@@ -24,6 +25,12 @@ type textRange struct {
 }
 
 var l3Text []textRange
+
+// l3Data: writable data symbols of the library (package-level variables, and static
+// data of its assembly files, which carry bare names). Watching them during the
+// calibration run tells after which instructions package-level memory changed; those
+// are the preemption points worth trying first.
+var l3Data []textRange
 
 // l3LoadText reads the module's text symbol ranges from this executable (the tracee is
 // the same binary).
@@ -41,6 +48,14 @@ func l3LoadText() error {
 		return err
 	}
 	for _, s := range syms {
+		if elf.ST_TYPE(s.Info) == elf.STT_OBJECT && s.Size > 0 && int(s.Section) < len(f.Sections) && s.Section > 0 &&
+			f.Sections[s.Section].Flags&elf.SHF_WRITE != 0 && !strings.HasSuffix(s.Name, ".inittask") {
+			lib := strings.HasPrefix(s.Name, "github.com/bilibili/smgo/")
+			bare := elf.ST_BIND(s.Info) == elf.STB_LOCAL && !strings.ContainsAny(s.Name, "./")
+			if lib || bare {
+				l3Data = append(l3Data, textRange{s.Value, s.Value + s.Size, s.Name})
+			}
+		}
 		if elf.ST_TYPE(s.Info) == elf.STT_FUNC && strings.HasPrefix(s.Name, "github.com/bilibili/smgo/") && s.Size > 0 {
 			l3Text = append(l3Text, textRange{s.Value, s.Value + s.Size, strings.TrimSuffix(strings.TrimPrefix(s.Name, "github.com/bilibili/smgo/"), ".abi0")})
 		}
@@ -70,12 +85,54 @@ type l3Outcome struct {
 	Preempt2  string
 	Steps     int // single steps taken
 	AEnded    bool
+	// GlobalWrites: library-instruction counts after which the library's package-level
+	// data had changed (calibration runs only)
+	GlobalWrites []int
+	GlobalNames  []string
 }
 
 const (
 	l3Begin = 1
 	l3End   = 2
 )
+
+// vmRead copies memory of the traced process (process_vm_readv).
+func vmRead(pid int, addr uint64, buf []byte) bool {
+	if len(buf) == 0 {
+		return true
+	}
+	local := syscall.Iovec{Base: &buf[0]}
+	local.SetLen(len(buf))
+	remote := [2]uintptr{uintptr(addr), uintptr(len(buf))}
+	n, _, e := syscall.Syscall6(310, uintptr(pid), uintptr(unsafe.Pointer(&local)), 1, uintptr(unsafe.Pointer(&remote)), 1, 0)
+	return e == 0 && int(n) == len(buf)
+}
+
+// l3DataHash digests the library's writable data in the traced process; changed names
+// are reported through which.
+func l3DataHash(pid int, prev []uint64) (cur []uint64) {
+	cur = make([]uint64, len(l3Data))
+	buf := make([]byte, 0, 4096)
+	for i, d := range l3Data {
+		n := int(d.hi - d.lo)
+		if n > 1<<16 {
+			n = 1 << 16
+		}
+		if cap(buf) < n {
+			buf = make([]byte, n)
+		}
+		b := buf[:n]
+		if !vmRead(pid, d.lo, b) {
+			continue
+		}
+		h := uint64(0xcbf29ce484222325)
+		for _, x := range b {
+			h = (h ^ uint64(x)) * 0x100000001b3
+		}
+		cur[i] = h
+	}
+	return cur
+}
 
 // wait4 retries on EINTR (the Go runtime signals its own threads; syscall.Wait4 does not restart).
 func wait4(pid int, st *syscall.WaitStatus) (int, error) {
@@ -344,8 +401,13 @@ func l3Run(script *c17l3Script, k, k2, calibClient int) (out l3Outcome) {
 	// stepN single-steps client c until it has executed n library instructions and the
 	// next PC is inside library text again (never park inside the runtime), or until it
 	// reaches its end marker. n<=0: step to the end.
+	var dataPrev []uint64
+	watch := k <= 0 && len(l3Data) > 0
 	stepN := func(c, n int) (count int, where string, ended bool, ok bool) {
 		tid := t.tid[c]
+		if watch {
+			dataPrev = l3DataHash(t.pid, nil)
+		}
 		for {
 			if time.Now().After(deadline) {
 				return count, where, false, false
@@ -407,6 +469,19 @@ func l3Run(script *c17l3Script, k, k2, calibClient int) (out l3Outcome) {
 				// just executed is counted when it was inside library text (tracked via 'where')
 				count++
 				where = fmt.Sprintf("%s+%#x", name, off)
+				if watch && len(out.GlobalWrites) < 256 {
+					cur := l3DataHash(t.pid, dataPrev)
+					for i := range cur {
+						if cur[i] != dataPrev[i] {
+							out.GlobalWrites = append(out.GlobalWrites, count)
+							if len(out.GlobalNames) < 8 {
+								out.GlobalNames = append(out.GlobalNames, l3Data[i].name)
+							}
+							break
+						}
+					}
+					dataPrev = cur
+				}
 				if n > 0 && count >= n {
 					return count, where, false, true
 				}
